@@ -8,6 +8,30 @@ NOTES = ('Technique: machine-checked proof in Lean 4 over an executable model ti
          'same generated operations; the implementation-side property oracle runs on every generated case. See DESIGN.md.')
 NOT_CLAIMED = {}
 CLAIMS = {
+ 'C04': dict(
+  technique='Lean 4 crash-consistency theorem over a record-granular storage/protocol machine + byte-exact codecs + the recovery function replayed on real crash images',
+  text=('11 theorems (Props/C04.lean). Byte level: batch and session-record codecs round-trip (Proofs/Batch, Manifest); image_reads_prefix / manifest_image_reads_prefix (a torn or zero-extended journal or manifest image reads back as a prefix of the records written, from the C12 theorems), '
+        'torn_manifest_record_no_trace, group_all_or_nothing. Protocol level (Model/Disk, Durable: every storage action of write groups, buffer rotation, memdb flush, manifest append and rotation, recovery itself, crash or clean exit at any point, nested): crash_consistent_core — for every reachable state and EVERY crash image '
+        '(per file: synced prefix kept; unsynced tail lost, kept or cut) recovery succeeds, yields exactly a selection of whole issued groups containing every sync-acknowledged one, and the recovered state is reachable again; explicit losing traces for each ordering obligation removed (journal removed before the edit is durable, '
+        'rotation without the commit numbers = D2, SetMeta before the manifest sync, torn manifest record keeping its scalars = D22 — found by this model\'s differential and fixed). Tie: record tags and batch header regenerated; per run ~110 000 crash images of real workloads (plain, tiny manifest, large-batch and explicit transactions, CompactRange, a >32 KiB manifest with records straddling block boundaries; nested crashes) are reopened by the real DB and checked against the subset-of-batches oracle, and ~2 000 of them are '
+        'decoded and recovered by the compiled Lean model (journals, manifest, table entry lists) whose live contents digest must equal the real DB\'s.'),
+  note=('Partial: crash_consistent_full (table compaction and transaction job kinds, which the machine has) is stated and explored by a random explorer but not proved; the byte-to-record refinement of recovery is connected by the four prefix/no-trace lemmas, not end to end; the storage contract (what a crash may do to a file, atomic ordered namespace operations, a failed SetMeta has no effect) is an assumption. '
+        'The first-creation window (crash before the first SetMeta: Open refuses, D12) is outside the crash points explored.')),
+ 'C08': dict(
+  technique='Lean 4 fault-safety theorem for the write path of the durable machine (failures with or without effect) + exhaustive single-fault enumeration on the real DB',
+  text=('Props/C08.lean: fault_safe_partial — with every journal write/sync allowed to fail with or without effect at any position, the running buffer is exactly the acknowledged groups plus the one being applied, a reopen returns all acknowledged groups and only issued ones, every crash image opens with every sync-acknowledged group; '
+        'd4_loses_acked_write is the explicit losing trace of the code as found (a failed journal write did not consume its sequence numbers — defect D4, found and fixed; the Cfg flag is the regenerated behaviour). The recovery function it relies on is the one tied to the code by C04\'s image differential. '
+        'Implementation side, per run ~2 700 fault plans: every class (operation kind x file type x client call in progress) x first/last/random position x with/without effect, bursts, pairs, "all removes fail"; continued use, close/reopen twice, final reopen on a clean clone; oracle: acknowledged writes present, failed writes whole or absent, reads may fail but never disagree, '
+        'single-byte damage of table blocks and journal chunks is reported or drops whole batches; watchdog per call. Defects D4 D25 D27 found and fixed here.'),
+  note=('Partial: fault_safe_full (flush, compaction, manifest and transaction steps under faults) is stated, not proved. Known findings matched by signature: D8 (poisoned manifest writer: retry loop holds compCommitLk), D10 (a manifest record that reached the file although commit reported failure: Open fails with missing files after Discard/revert), '
+        'D26 (SetMeta failing after taking effect). Table Close failures are outside the fault alphabet.')),
+ 'C19': dict(
+  technique='Lean 4 theorems over the rebuild (all tables to level 0, max sequence, journals replayed) + Recover on settled DBs with damaged manifests and blocks',
+  text=('3 theorems (Props/C19.lean): recover_rebuilds (for a settled state the rebuilt all-level-0 version with seq = max seen has the same contents), recover_rebuilds_damaged (with unreadable entries: every readable entry without a newer version is returned, nothing invented), rebuilt_lookup_refines_view (via the level-0 max-seq lookup theorem of C01). '
+        'Implementation side, per run 8 000 evaluations: settled histories over five comparers, filter on/off, compression on/off, newest writes left in journals; manifest deleted / CURRENT cleared / truncated / garbage; 1-3 damaged data blocks; Recover must succeed, return exactly the plain map (or, with damage, every undamaged newest entry and nothing unwritten), Get must agree with iteration, the DB must be usable afterwards. '
+        'Defect D19 (rebuild with the user comparer/filter) found and fixed.'),
+  note='Partial: the theorems are stated over the abstract rebuild input (Settled, Uniq hypotheses); recoverTable\'s file handling (rename, temp files) is covered by the implementation-side oracle only.'),
+
  'C07': dict(
   technique='Lean 4 theorems over a transcription of session.refLoop (message handlers, processTasks) + trace validation of its hook events + storage-contents oracles',
   text=('5 theorem groups (Props/C07.lean) over Model/RefLoop.lean: no_premature_delete (the loop never removes a table that a referenced-and-unreleased version or the current version contains; incl. conversion to full references after '
